@@ -395,6 +395,20 @@ pub fn crash(case: &JsonValue) -> JsonValue {
         let mut c = CsvRatesCache::new(dir.clone(), WriteHandle::empty_write_handle());
         c.write_rates(year, &rows_of(&case["old"])).unwrap();
     }
+    // a temporary file left behind by an earlier interrupted write
+    if let Some(st) = case["stale_tmp"].as_str() {
+        std::fs::create_dir_all(&dir).unwrap();
+        std::fs::write(dir.join(format!("rates-{}.csv.tmp", year)), st.as_bytes()).unwrap();
+    }
+    let live_path = dir.join(format!("rates-{}.csv", year));
+    let inode_of = |p: &Path| -> JsonValue {
+        use std::os::unix::fs::MetadataExt;
+        match std::fs::metadata(p) {
+            Ok(m) => JsonValue::String(format!("{}", m.ino())),
+            Err(_) => JsonValue::Null,
+        }
+    };
+    let inode_before = inode_of(&live_path);
     let mut job = JsonValue::new_object();
     job["dir"] = dir.to_str().unwrap().into();
     job["year"] = year.into();
@@ -428,6 +442,8 @@ pub fn crash(case: &JsonValue) -> JsonValue {
     };
     out["child_out"] = String::from_utf8_lossy(&outp.stdout).to_string().into();
     out["dir"] = dir_listing(&dir);
+    out["live_inode_before"] = inode_before;
+    out["live_inode_after"] = inode_of(&live_path);
     out["parsed"] = read_year(&dir, year);
     out["trace"] = JsonValue::Array(
         std::fs::read_to_string(&trace_path)
